@@ -360,7 +360,7 @@ func init() {
 	register(&Check{
 		ID:    "C18",
 		Level: "model_checking",
-		Rule: "threads = parse calls (each followed by hashing and walking its own result) sharing input buffers and one options value; scenarios: realtime||realtime on the same buffer and on two different feeds (elevator feeds that share groups for nyctalerts), static||static on the same archive (known and never-seen unknown agency zone; members with UTF-8 / UTF-16 byte order marks), static||realtime, journal+CSV export||journal+CSV export, for 7 configurations (nil Extension with and without Timezone, no-op, nycttrips and nyctalerts behind a yielding proxy, nycttrips and nyctalerts unwrapped with the default zone); thorough adds 3-thread scenarios; every interleaving at the scheduling points (extension method calls + per-entity / per-file hooks) with <= 2 preemptions (thorough <= 4; <= 2 for three threads), each executed under -race with a hand-off the detector cannot see; " +
+		Rule: "threads = parse calls (each followed by hashing and walking its own result) sharing input buffers and one options value; scenarios: realtime||realtime on the same buffer (a valid one; a rejected one: HTML + half a feed), on two copies of a feed of NYCT oddities (assigned trips without train id, updates without stop id) and on two different feeds (elevator feeds that share groups for nyctalerts), static||static on the same archive (known and never-seen unknown agency zone; members with UTF-8 / UTF-16 byte order marks), static||realtime, journal+CSV export||journal+CSV export, for 7 configurations (nil Extension with and without Timezone, no-op, nycttrips and nyctalerts behind a yielding proxy, nycttrips and nyctalerts unwrapped with the default zone); thorough adds 3-thread scenarios; every interleaving at the scheduling points (extension method calls + per-entity / per-file hooks) with <= 2 preemptions (thorough <= 4; <= 2 for three threads), each executed under -race with a hand-off the detector cannot see; " +
 			"non-trivial = distinct schedules in which both threads ran between points; oracle = zero race reports (runtime.RaceErrors per schedule) and every call's dump equal to its solo dump",
 		Assumptions: []string{"the Go race detector is trusted (no false positives; bounded shadow history)", "synchronisation inside the standard library / protobuf (sync.Pool, sync.Once) creates real happens-before edges that can hide a conflict in one schedule; the explored preemptions move the calls relative to those edges", "exhaustive over schedules at the listed points within the preemption bound, and over memory for the executed paths; not over inputs"},
 		Scenarios: func(tier string) []*Scenario {
@@ -378,6 +378,15 @@ func init() {
 				s = append(s,
 					&Scenario{Name: "rt-same-buffer/" + cfg.name, Bound: k, Run: c18Harness(cfg, func() []c18Call {
 						return []c18Call{rtCall("ParseRealtime(mixed)", c18Inputs.feeds[5]), rtCall("ParseRealtime(mixed)", c18Inputs.feeds[5])}
+					})},
+					&Scenario{Name: "rt-rejected-buffer/" + cfg.name, Bound: k, Run: c18Harness(cfg, func() []c18Call {
+					// the same unparseable buffer (an HTML error page followed by half a feed) handed to two calls, and to a valid one's neighbour
+					bad := append([]byte("<html><head><title>503 Service Temporarily Unavailable</title></head><body>try again later</body></html>"), c18Inputs.feeds[3][:len(c18Inputs.feeds[3])/2]...)
+					return []c18Call{rtCall("A(rejected buffer)", bad), rtCall("B(same buffer)", bad)}
+				})},
+					&Scenario{Name: "rt-nyct-oddities/" + cfg.name, Bound: k, Run: c18Harness(cfg, func() []c18Call {
+						// assigned trips without train id, updates without stop ids: each call on its own copy
+						return []c18Call{rtCall("ParseRealtime(oddities)", c18Inputs.feeds[6]), rtCall("ParseRealtime(copy of oddities)", append([]byte(nil), c18Inputs.feeds[6]...))}
 					})},
 					&Scenario{Name: "rt-two-feeds/" + cfg.name, Bound: k, Run: c18Harness(cfg, func() []c18Call {
 						return []c18Call{rtCall(fmt.Sprintf("ParseRealtime(feed%d)", a), c18Inputs.feeds[a]), rtCall(fmt.Sprintf("ParseRealtime(feed%d)", b), c18Inputs.feeds[b])}
